@@ -15,7 +15,7 @@ BN_FAULTS = ['flip', 'flip', 'v_zero', 'v_ord', 'v_addord', 'v_negmod', 'v_inc',
 PT_FAULTS = ['flip', 'flip', 'v_inf', 'v_gen', 'v_neg', 'v_dbl', 'v_rand', 'v_offcurve', 'tag', 'trunc1', 'set']
 G2_FAULTS = PT_FAULTS + ['v_nosub', 'v_nosub']
 GT_FAULTS = ['flip', 'v_one', 'v_gen', 'v_rand', 'v_inv', 'v_sqr', 'trunc1', 'set']
-BYTES_FAULTS = ['flip', 'flip', 'flip', 'trunc1', 'trunc', 'extend', 'set', 'empty', 'zero']
+BYTES_FAULTS = ['flip', 'flip', 'flip', 'trunc1', 'trunc', 'extend', 'set', 'empty', 'zero', 'extlong']
 FAULTS_BY_TYPE = {'bn': BN_FAULTS, 'ec': PT_FAULTS, 'g1': PT_FAULTS, 'g2': G2_FAULTS, 'gt': GT_FAULTS, 'bytes': BYTES_FAULTS}
 
 
@@ -198,7 +198,7 @@ def parse(transcript):
             s.msg = unhex(d.get('msg', '-'))
             s.opts = {k: v for k, v in d.items() if k != 'msg'}
             sess[sid] = s
-        elif t in ('MSG', 'VER', 'RC', 'OUT', 'KEY', 'DELIVER', 'SHARE', 'COLLECTED', 'THROWN', 'CODE', 'DONE', 'STEP', 'NOTE', 'INFO'):
+        elif t in ('MSG', 'VER', 'RC', 'OUT', 'KEY', 'DELIVER', 'SHARE', 'COLLECTED', 'THROWN', 'CODE', 'DONE', 'STEP', 'NOTE', 'INFO', 'SETS'):
             try:
                 sid = int(f[1])
             except ValueError:
@@ -589,6 +589,14 @@ SCHEMES.update({
 from . import protosim_extra  # noqa: E402  (registers the remaining schemes)
 
 
+def crash_sig(plan, diag, prop):
+    """A sanitizer abort inside a session is identified by the first relic function on the stack that is
+    not a generic copy / encode helper."""
+    from .core import crash_signature
+    cs = crash_signature(diag, skip=('dv_copy', 'bn_copy', 'dv_zero', 'fp_copy', 'ep_write_bin', 'ep2_write_bin', 'ep_copy', 'bn_write_bin', 'memcpy', 'memset'))
+    return prop, '%s|crash|%s' % (prop, cs)
+
+
 def check(plan, transcript, config, opts):
     out = Outcome()
     ctx, sess = parse(transcript)
@@ -608,6 +616,9 @@ def check(plan, transcript, config, opts):
         except (KeyError, ValueError, IndexError, TypeError):
             # records missing because the shrinker removed plan lines: nothing asserted
             out.probe('oracle-skipped-incomplete-session')
+        if s.done and not s.faults() and not s.ver and not s.out and sp.fields and sp.prop == 'C05':
+            # an honest session that produced neither a verdict nor an output exercises nothing
+            out.probe('honest-session-without-verdict:' + s.scheme)
         for r in s.m.values():
             if r['kind'] != 'none':
                 out.fault(r['kind'])
